@@ -3,6 +3,7 @@ CONSTANTS Strategy = "rename"
           Granularity = "full"
           Locking = TRUE
           KeepEmpty = TRUE
+          StampAt = "stat"
 CONSTRAINT Hwm
 POSTCONDITION TraceAccepted
 CHECK_DEADLOCK FALSE
